@@ -1963,7 +1963,9 @@ pub mod scalar_pow {
         f64::from(b).powf(f64::from(a))
     }
     pub fn byte_num(a: u8, b: f64) -> f64 {
-        b.powi(a as i32)
+        // Same function as `num_num`, so that the result does not depend on
+        // whether the exponent happens to be stored as bytes
+        b.powf(f64::from(a))
     }
     pub fn num_byte(a: f64, b: u8) -> f64 {
         f64::from(b).powf(a)
